@@ -288,7 +288,8 @@ def main(tier):
                 continue
             if method.startswith('scipy'):
                 data = p.check_totals(of=['y'], wrt=['ycp'], method='fd', form='central', step=1e-4, out_stream=None)
-                jf, jfd = list(data.values())[0]['J_fwd'], list(data.values())[0]['J_fd']
+                d0 = list(data.values())[0]
+                jf, jfd = (d0['J_fwd'] if 'J_fwd' in d0 else d0['J_rev']), d0['J_fd']     # (mode 'auto' picks rev when y is smaller than ycp)
                 ok, worst = bool(np.max(np.abs(jf - jfd)) < 1e-5), float(np.max(np.abs(jf - jfd)))
             else:
                 ok, worst = totals_ok(p, ['y'], ['ycp'])
